@@ -136,7 +136,9 @@ def Expr.modNonneg (env : Env N) : Expr → Bool
     l.modNonneg env && r.modNonneg env &&
       (op != .mod ||
         match evalPy true env l, evalPy true env r with
-        | some a, some b => !a.isFloat && !b.isFloat && decide (0 ≤ a.toI) && decide (0 < b.toI)
+        | some a, some b =>
+          if a.isFloat || b.isFloat then N.le (N.ofInt 0) a.toF && N.lt (N.ofInt 0) b.toF
+          else decide (0 ≤ a.toI) && decide (0 < b.toI)
         | _, _ => false)
   | .un _ e => e.modNonneg env
   | .cmp _ l r => l.modNonneg env && r.modNonneg env
